@@ -70,7 +70,7 @@ def check_C16(ctx):
     L2 = (dict(k="named", name="Listener#2"), [dict(t="listener", n="priv", f=[["listen", "s65746831"], ["port", "i22"]])])
     for i, (ty, blks) in enumerate([L1, L2, L1, L2]):
         bcs.append(dict(id="lst%d" % i, mode="ptr", type=ty, bkind="struct", blocks=blks, prev=0))
-    long_blocks = [dict(t="a", n="n%d" % i, f=[["x", "i%d" % i]] + ([["oops%d" % i, "i1"]] if i == 67 or i >= 128 else [])) for i in range(256)]
+    long_blocks = [dict(t="a", n="n%d" % i, f=([["x", "s78"]] if i >= 128 else [["x", "i%d" % i]]) + ([["oops%d" % i, "i1"]] if i == 67 else [])) for i in range(256)]   # element 67: unknown key; 128..255: type mismatch
     bcs.append(dict(id="long", mode="ptr", type=dict(k="slice", elem=T(fld("Name", STR), fld("X", INT))), bkind="slice", blocks=long_blocks, prev=0))
     for c in bcs:
         c["repeat"] = 40
